@@ -11,6 +11,7 @@ import Driver.ReqClient
 import Driver.Registry
 import Driver.Tls
 import Driver.KeepAlive
+import Driver.SubClient
 
 /-! `drv`: one case per input line, one result per output line (see /verif/DESIGN.md, section 3.2). -/
 
@@ -29,6 +30,7 @@ def step (line : String) : String :=
   | "rq" :: rest => Driver.ReqClient.run rest
   | "rqcut" :: rest => Driver.ReqClient.runCut rest
   | "rqreuse" :: rest => Driver.ReqClient.runReuse rest
+  | "ppraw" :: rest => Driver.SubClient.run rest
   | "pp" :: rest => Driver.PubClient.run rest
   | "ppx" :: rest => Driver.PubClient.run rest
   | "tn" :: rest => Driver.Topic.run "tn" rest
